@@ -51,12 +51,15 @@ def batches(draw, max_n):
         inputs.append((f"p{i}.tjp", text.encode(), "valid" + ("+own:" + own[0].name if own else "")))
         if draw(st.booleans()):
             inputs.append((f"copy{i}.tjp", text.encode(), "copy"))
-    extra = draw(st.lists(st.sampled_from(["missing", "empty", "syntax", "nonutf8", "existing_out"]), max_size=3))
+    extra = draw(st.lists(st.sampled_from(["missing", "empty", "syntax", "nonutf8", "existing_out", "badname"]), max_size=3))
     for k, e in enumerate(extra):
         if e == "empty":
             inputs.append((f"empty{k}.tjp", b"", "empty"))
         elif e == "syntax":
             inputs.append((f"syn{k}.tjp", inputs[0][1].replace(b"{", b"{ ]] ", 1), "syntax"))
+        elif e == "badname":  # a valid project in a file whose name is not valid UTF-8 (or holds a blank / newline)
+            nm = draw(st.sampled_from([os.fsdecode(b"n\xff%d.tjp" % k), "my plan %d.tjp" % k, os.fsdecode(b"caf\xe9%d.tjp" % k)]))
+            inputs.append((nm, inputs[0][1], "badname"))
         elif e == "nonutf8":
             inputs.append((f"bin{k}.tjp", inputs[0][1][:40] + b"\xff\xfe\x80 caf\xe9 " + inputs[0][1][40:], "nonutf8"))
     n = draw(st.integers(2, max_n))
@@ -142,6 +145,8 @@ def eval_batch(case):
     vs = []
     try:
         for name, data, _d in case["inputs"]:
+            if "/" in name:
+                os.makedirs(os.path.join(sb.cwd, os.path.dirname(name)), exist_ok=True)
             sb.write(name, data)
         if any(i.get("mkdir") for i in case["invs"]):
             os.makedirs(os.path.join(sb.cwd, "adir"), exist_ok=True)
@@ -319,6 +324,35 @@ def eval_name(item):
     return r
 
 
+FILE_NAMES = [os.fsdecode(b"n\xff.tjp"), os.fsdecode(b"caf\xe9.tjp"), "my plan.tjp", "Planfile", "p.TJP", "x.tjp.bak", "a'b.tjp", 'q"uote.tjp', "semi;colon.tjp",
+              "uml\u00e4ut.tjp", "new\nline.tjp", "#hash.tjp", "sub dir/p.tjp"]
+
+
+def file_items(shard, nshards):
+    k = 0
+    for name in FILE_NAMES:
+        for csvf in (False, True):
+            if k % nshards == shard:
+                yield (name, csvf)
+            k += 1
+
+
+def eval_file_name(item):
+    """A valid project (with and without an own report) in a file with an awkward name: traced solitary runs + a pair."""
+    name, csvf = item
+    text = NAME_PROJECT % ("weekly", "json, csv")
+    case = {"inputs": [(name, text.encode(), "badname")],
+            "invs": [{"args": ["report"] + (["--csv"] if csvf else []) + ["--", name], "stdin": None, "desc": "badname"},
+                     {"args": ["report"] + (["--csv"] if not csvf else []) + ["--", name], "stdin": None, "desc": "badname other format"}],
+            "stagger": [0, 3]}
+    r = eval_batch(case)
+    r.key = f"file name {name!r} {csvf}"
+    r.nontrivial = True
+    r.nt_keys = []
+    r.sample = {"file_name": repr(name), "csv": csvf}
+    return r
+
+
 class contextlib_suppress:
     def __enter__(self):
         return self
@@ -332,6 +366,8 @@ def campaigns(tier):
     return [
         Campaign("batches", "hyp", evaluate=eval_batch, strategy=lambda: batches(24 if q else 96), n=16 if q else 400, shards=4 if q else 8, shrink=not q,
                  floor_nontrivial=0.2, describe="concurrent batches in one cwd/TMPDIR + traced solitary runs of every distinct invocation"),
+        Campaign("file_names", "enum", evaluate=eval_file_name, items=file_items, exhaustive=True,
+                 describe="a valid project in files with awkward names (not UTF-8, blanks, quotes, newline, sub-directory) x output format: traced solitary runs + a pair"),
         Campaign("report_names", "enum", evaluate=eval_name, items=name_items, exhaustive=True,
                  describe="every hostile / ordinary report name of a fixed list x formats x output format: traced solitary run + a file/stdin pair"),
     ]
